@@ -683,6 +683,9 @@ def run(ck):
     ck.assumptions += ['table invariants established by register_init (C04): sorted, non-overlapping areas/entries, entries inside areas', 'areas have at least one atom; rds_size of a real register is 1, 2 or 4 (C01.a); n >= 1 inside the helpers (n == 0 is answered before they run)',
                        'rv_validate has no side effects (checked in C01.b)']
     R = Regs(ck)
+    ck.rule('C02.i', 'a refused block write leaves nothing behind in the table - not in its memory (C02.a) and not in the table object either (no memo, resume cursor or mark on a refusing path of the write or of its malformed-write / hole / writeable tests)')
+    from .regs import refusals_leave_no_trace
+    refusals_leave_no_trace(R, 'C02.i', ('register_block_write', 'ra_malformed_write', 'register_block_touches_hole', 'ra_writeable'))
     distinct_enums(ck, R.u, 'C02.a', ('REG_ACCESS_',), 'include/ufw/register-table.h')
     R.validate_pure = True
     rule_a(ck, R)
